@@ -38,6 +38,7 @@ type exFnPlan struct {
 	gap        pause // how long it keeps running after an early resolve
 	unresolved bool  // work-style only: return without calling resolve (fault unresolved_work)
 	double     bool  // work-style only: call resolve a second time with another value (must be ignored)
+	panics     bool  // value-style under the harness's outer wrapper only: the function panics; the wrapper recovers
 	hedged     bool  // work-style only: two tasks call resolve concurrently with different values (one wins, for every caller)
 	errKind    int   // 0: (res,nil)  1: (nil,err)  2: (res,err)
 	holdInGap  bool  // held (if its key is the held key) after resolving instead of before
@@ -52,14 +53,15 @@ type exOpPlan struct {
 	asyncPause pause
 	minDur     time.Duration // value-style: wrap in bigbuff.MinDuration
 	// CallWithOptions only
-	optStart     bool
-	optWork      bool          // ExclusiveWork (else ExclusiveValue)
-	optRate      time.Duration // ExclusiveRateLimit(ctx, optRate) when > 0
-	optOuter     bool          // an outermost ExclusiveWrapper that stamps the whole wrapped work function
-	optWait      bool
-	negWait      time.Duration // a raw wait <= 0 passed instead of wait*unit
-	optRateFirst bool          // option order: rate limit before / after the work option
-	fn           exFnPlan
+	optStart      bool
+	optWork       bool          // ExclusiveWork (else ExclusiveValue)
+	optRate       time.Duration // ExclusiveRateLimit(ctx, optRate) when > 0
+	optOuter      bool          // an outermost ExclusiveWrapper that stamps the whole wrapped work function
+	optWait       bool
+	negWait       time.Duration // a raw wait <= 0 passed instead of wait*unit
+	optRateFirst  bool          // option order: rate limit before / after the work option
+	optRateShared bool          // the rate-limit option value is shared with other calls of the run
+	fn            exFnPlan
 }
 
 type exRes struct {
@@ -67,6 +69,9 @@ type exRes struct {
 	bogus bool
 	alt   bool // the second candidate of a hedged resolve
 }
+
+// exValuePanic is what a scripted value function panics with.
+var exValuePanic = any("c10: scripted panic of a value function")
 
 type exErr struct{ exec int }
 
@@ -101,12 +106,13 @@ type exExecRec struct {
 	err        error
 	answered   int
 	held       bool
+	panicked   bool        // the value function ran and panicked
 	bodyBegan  bool        // the user-supplied work function itself started (not only a wrapper around it)
 	hedged     bool        // resolved by two concurrent resolve calls: (res,err) or (alt,nil), the same for every caller
 	alt        interface{} // the second candidate
 	hres       interface{} // the first candidate
 	herr       error
-	winner     *exCallRec  // first call seen answered by this hedged execution
+	winner     *exCallRec // first call seen answered by this hedged execution
 }
 
 type exWorld struct {
@@ -124,6 +130,26 @@ type exWorld struct {
 	released bool
 	mu       sync.Mutex
 	rateCtx  context.Context
+	rateOpts map[time.Duration]bigbuff.ExclusiveOption // option values reused by several calls (and keys)
+}
+
+// rateLimit returns the rate-limit option of an operation: a fresh option value, or (half of the
+// operations) one shared by every call of the run that uses the same rate, whatever its key.
+func (w *exWorld) rateLimit(op *exOpPlan) bigbuff.ExclusiveOption {
+	d := op.optRate * w.unit
+	if !op.optRateShared {
+		return bigbuff.ExclusiveRateLimit(w.rateCtx, d)
+	}
+	if o, ok := w.rateOpts[d]; ok {
+		simrt.Probe("rate_limit_option_value_reused")
+		return o
+	}
+	if w.rateOpts == nil {
+		w.rateOpts = map[time.Duration]bigbuff.ExclusiveOption{}
+	}
+	o := bigbuff.ExclusiveRateLimit(w.rateCtx, d)
+	w.rateOpts[d] = o
+	return o
 }
 
 func (w *exWorld) fail(prop, check, format string, args ...interface{}) {
@@ -175,6 +201,10 @@ func drawExOp(nKeys int) *exOpPlan {
 		op.optWork = simrt.Chance(2, 3)
 		if simrt.Chance(1, 2) {
 			op.optRate = time.Duration(simrt.DrawRange(1, 8))
+			if simrt.Chance(1, 2) {
+				op.optRate = time.Duration(1 + 3*simrt.Draw(2)) // few distinct rates, so that sharing happens
+				op.optRateShared = true
+			}
 		}
 		op.optOuter = op.optRate > 0 || simrt.Chance(1, 2)
 		op.optRateFirst = simrt.Chance(1, 2)
@@ -187,6 +217,9 @@ func drawExOp(nKeys int) *exOpPlan {
 		op.minDur = time.Duration(simrt.DrawRange(1, 6))
 	}
 	op.fn = drawExFn(work)
+	if op.kind == exOptions && !op.optWork && op.optOuter && simrt.Chance(1, 6) {
+		op.fn.panics = true
+	}
 	return op
 }
 
@@ -331,6 +364,11 @@ func (w *exWorld) valueFn(c *exCallRec) func() (interface{}, error) {
 			w.mu.Unlock()
 		}
 		w.maybeHold(e)
+		if f.panics {
+			simrt.Fault("callback_panic")
+			e.panicked = true
+			panic(exValuePanic)
+		}
 		r, err := w.result(e, f.errKind)
 		if own {
 			w.noteResolve(e, r, err)
@@ -347,11 +385,23 @@ func (w *exWorld) outer(c *exCallRec) func(bigbuff.WorkFunc) bigbuff.WorkFunc {
 		return func(resolve func(interface{}, error)) {
 			e := w.begin(c)
 			c.cur = e
-			inner(func(r interface{}, err error) {
-				w.noteResolve(e, r, err)
-				resolve(r, err)
-			})
+			func() {
+				// a user's outer wrapper may absorb a panic of the function it wraps; the work function
+				// then simply returns without having resolved
+				defer func() {
+					if x := recover(); x != nil && x != exValuePanic {
+						panic(x)
+					}
+				}()
+				inner(func(r interface{}, err error) {
+					w.noteResolve(e, r, err)
+					resolve(r, err)
+				})
+			}()
 			c.cur = nil
+			if e.resolved && e.panicked {
+				w.fail("C10", "C10.unresolved-masked", "the value function of call %d panicked (absorbed by the caller's own outer wrapper), so nothing was resolved; yet (%v,%v) was resolved on its behalf: the outcome must be the resolve-not-called error", c.id, e.res, e.err)
+			}
 			if e.resolved && e.bodyBegan && c.op.fn.unresolved {
 				w.fail("C10", "C10.unresolved-masked", "the work function of call %d started, and returned without resolving, yet a wrapper between it and the Exclusive resolved (%v,%v) on its behalf: the outcome must be the resolve-not-called error", c.id, e.res, e.err)
 			}
@@ -425,7 +475,7 @@ func (w *exWorld) perform(c *exCallRec) {
 		opts := []bigbuff.ExclusiveOption{bigbuff.ExclusiveKey(key)}
 		if op.optRate > 0 && op.optRateFirst {
 			// "may be provided in any order (after or before this option)"
-			opts = append(opts, bigbuff.ExclusiveRateLimit(w.rateCtx, op.optRate*w.unit))
+			opts = append(opts, w.rateLimit(op))
 		}
 		if op.optWork {
 			opts = append(opts, bigbuff.ExclusiveWork(w.workFn(c)))
@@ -433,7 +483,7 @@ func (w *exWorld) perform(c *exCallRec) {
 			opts = append(opts, bigbuff.ExclusiveValue(value))
 		}
 		if op.optRate > 0 && len(opts) == 2 {
-			opts = append(opts, bigbuff.ExclusiveRateLimit(w.rateCtx, op.optRate*w.unit))
+			opts = append(opts, w.rateLimit(op))
 		}
 		if op.optWait {
 			opts = append(opts, bigbuff.ExclusiveWait(wait))
